@@ -269,17 +269,28 @@ def concurrent_saves(ctx, nthreads=4, per_thread=15):
                         rec = cas.create_new_recording('T%d' % t)
                         rec.set_data('who', [t, n])
                         rec.set_data('payload', 'x' * (50 * (n + 1)))
-                        rec.add_metadata({'t': t, 'n': n})
+                        # values with sub-objects that are reachable several times (the serializer writes
+                        # back-references for them), under several keys and in the metadata
+                        shared = ['shared', t, n]
+                        rec.set_data('graph', {'first': shared, 'again': [shared, shared], 'more': [[n], shared]})
+                        rec.set_data('graph2', [shared, {'k': shared}])
+                        rec.add_metadata({'t': t, 'n': n, 'tags': [shared, shared]})
                         cas.save_recording(rec)
                         saved.append((rec.id, t, n))
                     except Exception as e:  # pylint: disable=broad-except
                         errors.append((t, n, '%s: %s' % (type(e).__name__, e)))
 
             ths = [threading.Thread(target=worker, args=(t,)) for t in range(nthreads)]
-            for th in ths:
-                th.start()
-            for th in ths:
-                th.join()
+            import sys as _sys
+            old_interval = _sys.getswitchinterval()
+            _sys.setswitchinterval(1e-6)    # threads are preempted every few bytecodes: saves really overlap
+            try:
+                for th in ths:
+                    th.start()
+                for th in ths:
+                    th.join()
+            finally:
+                _sys.setswitchinterval(old_interval)
             case = {'concurrent': name, 'threads': nthreads, 'per_thread': per_thread}
             if errors:
                 raise Violation('%s: save failed while other threads were saving: %r' % (name, errors[:3]),
@@ -287,9 +298,13 @@ def concurrent_saves(ctx, nthreads=4, per_thread=15):
             for rid, t, n in saved:
                 try:
                     got = cas.get_recording(rid)
-                    ok = got.id == rid and got.get_data('who') == [t, n] and got.get_metadata() == {'t': t, 'n': n} \
+                    sh = ['shared', t, n]
+                    md = {'t': t, 'n': n, 'tags': [sh, sh]}
+                    ok = got.id == rid and got.get_data('who') == [t, n] and got.get_metadata() == md \
                         and got.get_data('payload') == 'x' * (50 * (n + 1)) and \
-                        cas.get_recording_metadata(rid) == {'t': t, 'n': n}
+                        got.get_data('graph') == {'first': sh, 'again': [sh, sh], 'more': [[n], sh]} and \
+                        got.get_data('graph2') == [sh, {'k': sh}] and \
+                        cas.get_recording_metadata(rid) == md
                     detail = 'fetched id %r who %r metadata %r' % (got.id, got.get_data('who'), got.get_metadata())
                 except Exception as e:  # pylint: disable=broad-except
                     ok, detail = False, '%s: %s' % (type(e).__name__, e)
